@@ -1271,7 +1271,24 @@ class Gen:
             if r.random() < 0.2:
                 self.field_attr(e, t, f, ind + 1)
             return
-        e.w(pad + "%d [+" % off)
+        if f.kind == "phys" and f.size_names is None and not (f.type_names is None and isinstance(f.ftype, TNode)) \
+                and earlier and r.random() < 0.06:
+            # conditional field: the condition is written in the structure's scope
+            self.f("conditional_field")
+            e.w(pad + "if ")
+            self.use_path(e, self.path_string(t, earlier), t)
+            e.w(" == 0:")
+            e.nl()
+            pad = pad + "  "
+            ind = ind + 1
+        if earlier and r.random() < 0.05 and f.kind != "anonfield":
+            # the start of the field given by an earlier field
+            self.f("start_by_field")
+            e.w(pad)
+            self.use_path(e, self.path_string(t, earlier), t)
+            e.w(" [+")
+        else:
+            e.w(pad + "%d [+" % off)
         if f.size_names is not None:
             self.use_name(e, f.size_names, t)
         elif r.random() < 0.3:
@@ -1308,7 +1325,13 @@ class Gen:
                     self.expr(e, t, earlier)
                 e.w(")")
             if f.array:
-                e.w("[2]")
+                if earlier and r.random() < 0.4:
+                    self.f("array_length_ref")
+                    e.w("[")
+                    self.expr(e, t, earlier)
+                    e.w("]")
+                else:
+                    e.w("[2]")
         else:
             self.use_name(e, [r.choice(["UInt", "UInt", "Int", "Flag", "Bcd"])], t)
         e.w("  ")
